@@ -10,8 +10,9 @@ EXPLANATION = (
     "grammar::reflect predicate per opcode) for every one of the 787 opcodes in each of the 4 states, and Loader::finalize in each "
     "state; where the instruction value ends up, which objects are created or handed over, and the next state are read off the "
     "resulting value and compared with the reference automaton transcribed from the property statement and the SPIR-V logical layout "
-    "(O-STMT/O-SPEC). Exhaustive at the abstraction the statement itself uses; no loader code is run.")
-EXHAUSTIVE = True
+    "(O-STMT/O-SPEC). Every case is repeated with a finished function in the module and a finished block in the open function, and the "
+    "outcome must be the same: the loader's value has more state than the two flags, and that part is sampled, not enumerated. No loader code is run.")
+EXHAUSTIVE = False     # opcode x automaton state is enumerated in full; the contents of the module under construction are a stated sample
 
 STATES = [(False, False), (True, False), (True, True), (False, True)]
 
